@@ -174,3 +174,72 @@ func RepoGoroutineSummary(dump string) []string {
 	}
 	return out
 }
+
+// QuietNow reports whether two goroutine dumps 200 ms apart show no library goroutine that is running, runnable or
+// sleeping: used to turn "did not happen within a generous wall-clock wait" into a verdict. If something can still
+// act, the wait proves nothing on a loaded machine (inconclusive); if nothing can, it will never happen (violation).
+func QuietNow() (quiet bool, dump string) {
+	gs1, _ := Dump()
+	time.Sleep(200 * time.Millisecond)
+	gs2, d2 := Dump()
+	return len(ActiveRepoGoroutines(gs1)) == 0 && len(ActiveRepoGoroutines(gs2)) == 0, d2
+}
+
+// AwaitBodyOrStuck is AwaitOrStuck for the in-process body of a check: "active" is ANY goroutine (library or harness)
+// other than the caller that is running, runnable, sleeping or in a system call - the body may legitimately compute
+// for a long time in harness code between two evaluations.
+func AwaitBodyOrStuck(done <-chan struct{}, quiet, hard time.Duration, progress func() int64) (verdict string, dump string) {
+	start := time.Now()
+	last := progress()
+	lastChange := time.Now()
+	self := Goid()
+	active := func(gs []GInfo) bool {
+		for _, g := range gs {
+			if g.ID == self {
+				continue
+			}
+			switch g.State {
+			case "running", "runnable", "sleep", "syscall":
+				return true
+			}
+		}
+		return false
+	}
+	tick := time.NewTicker(100 * time.Millisecond)
+	defer tick.Stop()
+	for {
+		select {
+		case <-done:
+			return "done", ""
+		case <-tick.C:
+		}
+		if p := progress(); p != last {
+			last, lastChange = p, time.Now()
+		}
+		if time.Since(lastChange) >= quiet {
+			stuck := true
+			var txt string
+			for k := 0; k < 3 && stuck; k++ {
+				var gs []GInfo
+				gs, txt = Dump()
+				if active(gs) || progress() != last {
+					stuck = false
+				}
+				time.Sleep(150 * time.Millisecond)
+			}
+			select {
+			case <-done:
+				return "done", ""
+			default:
+			}
+			if stuck {
+				return "stuck", txt
+			}
+			lastChange = time.Now()
+		}
+		if time.Since(start) > hard {
+			_, txt := Dump()
+			return "watchdog", txt
+		}
+	}
+}
